@@ -277,6 +277,84 @@ _NEG_OP = {ast.Eq: ast.NotEq, ast.NotEq: ast.Eq, ast.Is: ast.IsNot, ast.IsNot: a
            ast.NotIn: ast.In}
 
 
+class _CanonRet(ast.NodeTransformer):
+    """Semantics-preserving canonical form for returned temporaries:
+
+        t = <expr>          ->   return <expr>
+        return t
+
+    when the two statements are adjacent in one block, `t` is a plain local name (the function has no global /
+    nonlocal declaration for it) and the assignment has that single target.  Rules that read what a function
+    returns then see one spelling.  The returned expression keeps its own position."""
+
+    def _fold(self, stmts: list, declared: set) -> list:
+        out: list = []
+        for st in stmts:
+            prev = out[-1] if out else None
+            if (isinstance(st, ast.Return) and isinstance(st.value, ast.Name) and isinstance(prev, ast.Assign)
+                    and len(prev.targets) == 1 and isinstance(prev.targets[0], ast.Name)
+                    and prev.targets[0].id == st.value.id and st.value.id not in declared):
+                out[-1] = ast.copy_location(ast.Return(value=prev.value), prev)
+            else:
+                out.append(st)
+        return out
+
+    def _blocks(self, node: ast.AST, declared: set) -> None:
+        for fld in ("body", "orelse", "finalbody"):
+            blk = getattr(node, fld, None)
+            if isinstance(blk, list) and blk and isinstance(blk[0], ast.stmt):
+                for st in blk:
+                    if not isinstance(st, (ast.FunctionDef, ast.AsyncFunctionDef, ast.ClassDef)):
+                        self._blocks(st, declared)
+                setattr(node, fld, self._fold(blk, declared))
+        for h in getattr(node, "handlers", []) or []:
+            self._blocks(h, declared)
+
+    def visit_FunctionDef(self, node: ast.FunctionDef):
+        self.generic_visit(node)  # nested functions first
+        declared = set()
+        for n in ast.walk(node):
+            if isinstance(n, (ast.Global, ast.Nonlocal)):
+                declared |= set(n.names)
+        self._blocks(node, declared)
+        return node
+
+    visit_AsyncFunctionDef = visit_FunctionDef
+
+
+class _CanonPos(ast.NodeTransformer):
+    """Semantics-preserving canonical form for calls of undecorated module-level functions of the same module
+    (no *args, no positional-only parameters, name never rebound in the module): keyword arguments that continue the
+    positional prefix in declaration order are written positionally, `f(a, y=b)` -> `f(a, b)`.  Keywords after a gap
+    stay keywords."""
+
+    def __init__(self, tree: ast.Module):
+        self.sigs: dict[str, list[str]] = {}
+        for st in tree.body:
+            if isinstance(st, ast.FunctionDef) and not st.decorator_list and not st.args.posonlyargs \
+                    and not st.args.vararg:
+                self.sigs[st.name] = [a.arg for a in st.args.args]
+        for n in ast.walk(tree):
+            if isinstance(n, ast.Name) and isinstance(n.ctx, ast.Store):
+                self.sigs.pop(n.id, None)
+            if isinstance(n, ast.arg):
+                self.sigs.pop(n.arg, None)
+
+    def visit_Call(self, node: ast.Call):
+        self.generic_visit(node)
+        if isinstance(node.func, ast.Name) and node.func.id in self.sigs and node.keywords and not any(
+                isinstance(a, ast.Starred) for a in node.args) and not any(k.arg is None for k in node.keywords):
+            params = self.sigs[node.func.id]
+            kws = {k.arg: k for k in node.keywords}
+            i = len(node.args)
+            while i < len(params) and params[i] in kws:
+                k = kws.pop(params[i])
+                node.args.append(k.value)
+                node.keywords.remove(k)
+                i += 1
+        return node
+
+
 class _CanonNeg(ast.NodeTransformer):
     """Semantics-preserving canonical form for negated tests, applied to every module before analysis, so that the
     rules need to know one spelling only:
@@ -340,6 +418,8 @@ class Repo:
                 raise AnalysisError(f"cannot parse {rel}: {e}")
             if os.environ.get("VERIF_NO_CANON") != "1":
                 tree = ast.fix_missing_locations(_CanonNeg().visit(tree))
+                tree = ast.fix_missing_locations(_CanonPos(tree).visit(tree))
+                tree = ast.fix_missing_locations(_CanonRet().visit(tree))
             mod = ModuleInfo(name=name, path=path, relpath=str(rel), tree=tree, source=src)
             repo.modules[name] = mod
         for mod in repo.modules.values():
